@@ -109,6 +109,35 @@ theorem C10_roundtrip_mixed (cfg : Cfg) (classes : List Bytes) (info : Info) (ws
     decodeW cfg classes info (schemaW ws) (encodeW info ws) = .ok ws :=
   decodeW_encodeW cfg classes info ws hw
 
+mutual
+/-- the holder (const array, hash array) or pointer cell each variable of a value holds, in archive order -/
+def holderSlots : Value → List Lbl
+  | .constArray h _ es => h :: holderSlotsE es
+  | .array h _ _ _ _ kvs => h :: holderSlotsE kvs
+  | .pointer p _ => [p]
+  | .holderRef _ h => [h]
+  | _ => []
+def holderSlotsE : List (Lbl × Value) → List Lbl
+  | [] => []
+  | (_, v) :: es => holderSlots v ++ holderSlotsE es
+end
+
+def holderSlotsW : List WItem → List Lbl
+  | [] => []
+  | .item _ :: ws => holderSlotsW ws
+  | .value _ v :: ws => holderSlots v ++ holderSlotsW ws
+
+/-- **Sharing is preserved both ways**: two variables hold the same array holder / the same pointer cell after the
+    load iff they did before (a holder archived once and referred to by index afterwards comes back as one
+    holder, not as copies; distinct holders stay distinct). -/
+theorem C10_sharing_preserved (cfg : Cfg) (classes : List Bytes) (info : Info) (ws ws' : List WItem)
+    (hw : WFW cfg classes info ws) (hr : decodeW cfg classes info (schemaW ws) (encodeW info ws) = .ok ws') :
+    (holderSlotsW ws').length = (holderSlotsW ws).length ∧
+    ∀ i j : Nat, (holderSlotsW ws)[i]? = (holderSlotsW ws)[j]? ↔ (holderSlotsW ws')[i]? = (holderSlotsW ws')[j]? := by
+  rw [C10_roundtrip_mixed cfg classes info ws hw] at hr
+  cases hr
+  exact ⟨rfl, fun _ _ => Iff.rfl⟩
+
 /-! ### constant strings and the dictionary of the loading session (`StringDictionary::ArchiveString`) -/
 
 /-- **Any reading dictionary.**  A ConstString value is archived by its text and interned on load into the
@@ -214,6 +243,7 @@ example : ∃ L, decodeWD Cfg.fixed [[76]] sampleInfo (schemaW sampleW) [[120], 
   C10_const_string_any_dictionary _ _ _ _ sampleW_wf _
 
 example : constTextsW sampleW = [[107], [97]] := by decide
+example : holderSlotsW sampleW = [70, 70, 80, 80, 50, 60, 50] := by decide
 example : (Dict.loadAll [] [[97], [98], [97]]).2 = [1, 2, 1] := by decide
 example : (Dict.loadAll [[98]] [[97], [98], [97]]) = ([[98], [97]], [2, 1, 2]) := by decide
 
